@@ -99,6 +99,23 @@ claim("C27", "S2",
       "decided here is the discipline that implies it. RLock trusted.",
       "ast lock-region analysis + path typestate")
 
+claim("C28", "S1",
+      "Necessary structural clauses only: item order = due time only; queue ties broken by a per-enqueue counter over a "
+      "heapq heap; invoke() dominated by not is_cancelled(); every clock write guarded so the clock cannot move backwards "
+      "and, in run loops, equal to the due time of the item about to run; advance_to dequeues only under duetime <= "
+      "target (inclusive) and ends with clock = target; sleep runs nothing; advance_by delegates.",
+      "The order of concrete generated schedules is NOT decided (that is a value-level property); heapq and datetime "
+      "comparison semantics are trusted.",
+      "ast guard-dominance with comparator normalisation + structural checks of queue/item")
+
+claim("C29", "S2",
+      "Necessary conditions for termination, decided on every path: no use under the non-reentrant _lock of a self "
+      "member (method or property getter, through the class family) that takes it again; no store to a setter-less "
+      "property anywhere in the package; every run-loop iteration path exits or dequeues; enabled flag test-and-set at "
+      "entry and reset on every normal exit.",
+      "Termination itself is undecidable; user actions are assumed to terminate and to schedule finitely many actions.",
+      "ast lock re-acquisition reachability + property table + path enumeration of loop bodies")
+
 na("C15", "arithmetic over run-time timestamps (queue ordering by timestamp + duetime, 'exactly d later'); no structural "
           "clause that is both necessary and robust beyond ownership/guarding/falsy rules already decided under "
           "C02/C03/C08/C09, whose scope includes these files")
